@@ -28,6 +28,10 @@ A3 = "A3 Python int = mathematical integer, float = real"
 class UtilsStub:
     logger = NoopLogger()
 
+    @staticmethod
+    def fpid(g):
+        return "<graph>"
+
 
 class Member:
     """a set / dict of which only membership is read"""
@@ -950,5 +954,332 @@ def u_encode_paths(allow_empty):
                              "(the decoder unit of C01 starts from exactly this hypothesis; the bounded part checks the returned routes)"])
 
 
+# =====================================================================================================================
+# kPathCover._encode_path_cover / kPathCoverCycles._encode_walk_cover (C09): every non-ignored edge is used by at least one layer
+
+class SmallSet:
+    """set() whose membership test does not hash while it is empty"""
+    def __init__(self, it=()):
+        self.items = list(it)
+    def add(self, x): self.items.append(x)
+    def __contains__(self, x):
+        if not self.items:
+            return False
+        raise Unsupported("membership in a non-empty set of constraint edges")
+
+
+def u_cover(relpath, qualname, cons_attr):
+    P = "C09"
+    st = {}
+
+    def row(u, v):
+        return st["SUMX"](u, v, st["k"]) >= 1
+
+    def inv(ns, seq, done):
+        g = st["g"]
+        j = z3.Int("cj")
+        return {"rows-so-far=exactly-(some-layer-uses-the-edge)-for-the-non-ignored-edges-seen":
+                lift(ns["self"].solver.store.holds) == z3.And(st["H0"], z3.ForAll([j], z3.Implies(z3.And(j >= 0, j < lift(done), z3.Not(IGN(g.EU(j), g.EV(j)))), row(g.EU(j), g.EV(j)))))}
+
+    def h(c, f):
+        g = Graph(c)
+        k = c.fresh_const("k", INT)
+        c.assume(k >= 1)
+        st.update(g=g, k=k)
+        st["SUMX"] = prefix_sum(c, "layers_using_edge", lambda u, v, q: X(u, v, q), 2)
+
+        class Me(Tracked):
+            pass
+        me = Me()
+        sol = Solver({})
+
+        def linked_sum(it):
+            r = Solver.quicksum(sol, it)
+            bs = c.sums[-1]
+            tj = z3.Int(c.name("tj"))
+            t = bs.t(tj)
+            if not (z3.is_app(t) and t.decl().eq(X) and z3.simplify(t.arg(2)).eq(tj) and c._valid(bs.n == k)):
+                raise Unsupported("sum over something else than x(u,v,i) for i < k: %s" % t)
+            u, v = t.arg(0), t.arg(1)
+            S = st["SUMX"]
+            link_sum(c, "sum-built-by-the-code=number-of-layers-using-the-edge", lambda q: S(u, v, q), lambda q: z3.Implies(q >= 0, S(u, v, q + 1) == S(u, v, q) + X(u, v, q)), k, prop=P)
+            return r
+        sol.quicksum = linked_sum
+        me.solver, me.G, me.k = sol, g, Sym(k)
+        me.edge_vars = VarMap("edge_vars", X, lambda a, b, i: z3.And(g.EDGE(a, b), i >= 0, i < k), 3)
+        me.edges_to_ignore = Member(IGN, "ignored")
+        setattr(me, cons_attr, [])
+        setattr(me, cons_attr + "_coverage", 1)
+        st["H0"] = lift(sol.store.holds)
+        f(me)
+        H = lift(sol.store.holds)
+        u, v = z3.Ints("pu pv")
+        spec = z3.ForAll([u, v], z3.Implies(z3.And(g.EDGE(u, v), z3.Not(IGN(u, v))), row(u, v)))
+        c.prove("post:SOUND-in-every-admitted-assignment-every-non-ignored-edge-is-used-by-at-least-one-layer", z3.Implies(H, z3.And(st["H0"], spec)), prop=P)
+        c.prove("post:COMPLETE-nothing-else-is-excluded-(ignored-edges-carry-no-cover-row)", z3.Implies(z3.And(st["H0"], spec), H), prop=P)
+        c.prove("post:no-column-is-created", z3.BoolVal(not sol.created), prop=P)
+
+    def concrete(inst):
+        def hc(c, f):
+            E, k, ign = [tuple(e) for e in inst["edges"]], inst["k"], set(map(tuple, inst.get("ign", ())))
+
+            class G:
+                def edges(self, data=False): return list(E)
+
+            class Me(Tracked):
+                pass
+            me = Me()
+            sol = Solver({})
+            me.solver, me.G, me.k = sol, G(), k
+            me.edge_vars = VarMap("edge_vars", X, concrete_idx("edge_indexes", [(a, b, i) for i in range(k) for (a, b) in E], 3).pred, 3)
+            me.edges_to_ignore = ign
+            setattr(me, cons_attr, [])
+            setattr(me, cons_attr + "_coverage", 1)
+            H0 = lift(sol.store.holds)
+            f(me)
+            H = lift(sol.store.holds)
+            full = z3.And(H0, *[sum([X(a, b, i) for i in range(k)], z3.RealVal(0)) >= 1 for (a, b) in E if (a, b) not in ign])
+            c.prove("instance:SOUND-every-non-ignored-edge-is-used-by-at-least-one-layer", z3.Implies(H, full), prop=P)
+            c.prove("instance:COMPLETE-nothing-else-is-excluded", z3.Implies(full, H), prop=P)
+        return hc
+
+    def instances():
+        return [(lab, concrete(i)) for lab, i in (("3-edges,k=2", dict(edges=[(0, 1), (1, 2), (0, 2)], k=2)), ("3-edges,k=2,one-ignored", dict(edges=[(0, 1), (1, 2), (0, 2)], k=2, ign=[(0, 2)])),
+                                                  ("self-loop,k=1", dict(edges=[(0, 1), (1, 1), (1, 2)], k=1)))]
+    fresh = lambda old: Sym(z3.Bool(core.ctx().name("H")))
+    # loops 0/1 build the set of constraint edges (no constraints in this contract: they run natively zero times); loop 2 is the edge loop
+    loops = {2: dict(inv=inv, prop=P, modifies=[(("self", "solver", "store", "holds"), fresh)], keep=("u", "v"))}
+    return Unit(relpath, qualname, h, globs=dict(utils=UtilsStub, set=SmallSet), loops=loops, props=[P], instances=instances, callee_contracts=[A1C],
+                assumptions=[A3, "no sub-path / subset constraints given (with constraints at full coverage the code may skip the cover row of a constraint edge; that case is decided by the bounded part)"])
+
+
+# =====================================================================================================================
+# AbstractWalkModelDiGraph._encode_subset_constraints (C10, C04: subset constraints of the cyclic models)
+
+def u_subset_constraints():
+    P = "C10,C04"
+    Z = z3.Function("used_edge_var", INT, INT, INT, REAL)                  # min(1, multiplicity): "layer i uses edge e at all"
+    R = z3.Function("r_subset_var", INT, INT, REAL)
+    UB = z3.Function("edge_upper_bound", INT, INT, REAL)
+    DL = z3.Function("constraint_distinct_len", INT, INT)
+    DU, DV = z3.Function("constraint_distinct_tail", INT, INT, INT), z3.Function("constraint_distinct_head", INT, INT, INT)
+    st = {}
+    i_, j_, a_, b_ = z3.Ints("qi qj qa qb")
+    rng = lambda q, hi: z3.And(q >= 0, q < lift(hi))
+
+    def used_row(a, b, i):
+        return z3.And(Z(a, b, i) <= X(a, b, i), X(a, b, i) <= UB(a, b) * Z(a, b, i))
+
+    def cov_row(i, j):
+        return st["DS"](j, i, DL(j)) >= z3.ToReal(DL(j)) * st["cov"] * R(i, j)
+
+    def resp_row(j):
+        return st["RS"](j, st["k"]) >= 1
+
+    def eqv(ns, entry, body):
+        return lift(ns["self"].solver.store.holds) == z3.And(st[entry], body)
+
+    def snap(name, more=()):
+        def on_entry(ns, it=None):
+            st[name] = lift(ns["self"].solver.store.holds)
+            for a in more:
+                st["cur_" + a] = lift(ns[a])
+        return on_entry
+
+    def inv0(ns, seq, done):
+        g = st["g"]
+        return {"rows-so-far=used-indicator-rows-of-every-edge-in-every-layer-seen": eqv(ns, "H_l0", z3.ForAll([i_, j_], z3.Implies(z3.And(rng(i_, done), rng(j_, g.n)), used_row(g.EU(j_), g.EV(j_), i_))))}
+
+    def inv1(ns, seq, done):
+        g = st["g"]
+        return {"rows-so-far=used-indicator-rows-of-the-edges-seen-in-this-layer": eqv(ns, "H_l1", z3.ForAll([j_], z3.Implies(rng(j_, done), used_row(g.EU(j_), g.EV(j_), st["cur_i"]))))}
+
+    def inv2(ns, seq, done):
+        return {"rows-so-far=coverage-row-of-every-constraint-in-every-layer-seen": eqv(ns, "H_l2", z3.ForAll([i_, j_], z3.Implies(z3.And(rng(i_, done), rng(j_, st["m"])), cov_row(i_, j_))))}
+
+    def inv3(ns, seq, done):
+        return {"rows-so-far=coverage-row-of-the-constraints-seen-in-this-layer": eqv(ns, "H_l3", z3.ForAll([j_], z3.Implies(rng(j_, done), cov_row(st["cur_i"], j_))))}
+
+    def inv4(ns, seq, done):
+        return {"rows-so-far=some-layer-is-responsible-for-every-constraint-seen": eqv(ns, "H_l4", z3.ForAll([j_], z3.Implies(rng(j_, done), resp_row(j_))))}
+
+    class CSeq(SymSeq):
+        pass
+
+    def h(c, f):
+        g = Graph(c)
+        k, m = c.fresh_const("k", INT), c.fresh_const("n_constraints", INT)
+        cov = c.fresh_const("coverage", REAL)
+        c.assume(z3.And(k >= 1, m >= 0, cov > 0, cov <= 1))
+        st.update(g=g, k=k, m=m, cov=cov)
+        jj, q = z3.Ints("hj hq")
+        c.assume(z3.ForAll([jj], z3.Implies(z3.And(jj >= 0, jj < m), DL(jj) >= 1)))
+        c.assume(z3.ForAll([jj, q], z3.Implies(z3.And(jj >= 0, jj < m, q >= 0, q < DL(jj)), g.EDGE(DU(jj, q), DV(jj, q)))))     # requires: constraint edges are edges (C19)
+        st["DS"] = prefix_sum(c, "distinct_constraint_edges_used", lambda j, i, t: Z(DU(j, t), DV(j, t), i), 2)
+        st["RS"] = prefix_sum(c, "responsible_layers", lambda j, t: R(t, j), 1)
+        edge_pred = lambda a, b, i: z3.And(g.EDGE(a, b), i >= 0, i < k)
+        sub_pred = lambda i, j: z3.And(i >= 0, i < k, j >= 0, j < m)
+
+        class EdgeView(SymSeq):
+            def __call__(self, data=False): return g.edges(data)
+
+        class GG:
+            source, sink = g.source, g.sink
+            @property
+            def edges(self):
+                return EdgeView(g.n, lambda t: (Sym(g.EU(lift(t))), Sym(g.EV(lift(t)))), STuple(SInt, SInt), "edges")
+
+        class UBMap:
+            def __getitem__(self, key): return Sym(UB(lift(key[0]), lift(key[1])))
+
+        def set_(x=None):
+            if isinstance(x, CSeq):             # set(constraint j): its distinct edges, in some order (A3: a finite set has an enumeration without repetition)
+                jx = x.j
+                return SymSeq(DL(jx), lambda t: (Sym(DU(jx, lift(t))), Sym(DV(jx, lift(t)))), STuple(SInt, SInt), "distinct_edges")
+            raise Unsupported("set() of something else than a constraint")
+
+        st["set_"] = set_
+
+        class Me(Tracked):
+            pass
+        me = Me()
+        sol = Solver({"r": (R, 2), "used_edge": (Z, 3)})
+        sol.graph, sol.basic_pred = g, (lambda a, b: g.EDGE(a, b))
+        edge_idx = IdxSet("edge_indexes", edge_pred, 3)
+
+        def recognise(indexes, name_prefix):
+            if isinstance(indexes, LazyProduct):
+                a0, b0 = c.fresh_const("arbitrary_layer", INT), c.fresh_const("arbitrary_constraint", INT)
+                it1 = indexes.it1
+                if not (isinstance(it1, SymRange) and c._valid(lift(it1.length()) == k)):
+                    raise Unsupported("product index list: outer iterable is not range(k)")
+                c.assume(z3.And(a0 >= 0, a0 < k))
+                x1 = it1.at(a0)
+                it2 = indexes.it2fn(x1)
+                n2 = lift(it2.length())
+                c.assume(z3.And(b0 >= 0, b0 < n2))
+                key = indexes.fn(x1)(it2.at(b0))
+                if name_prefix == "r" and len(key) == 2 and c._valid(z3.And(n2 == m, lift(key[0]) == a0, lift(key[1]) == b0)):
+                    return IdxSet("subset_indexes", sub_pred, 2)
+                raise Unsupported("product index list not recognised")
+            return indexes
+        orig_add = sol.add_variables
+        sol.add_variables = lambda indexes, name_prefix="", lb=0, ub=1, var_type="integer": orig_add(recognise(indexes, name_prefix), name_prefix=name_prefix, lb=lb, ub=ub, var_type=var_type)
+
+        def linked_sum(it):
+            r = Solver.quicksum(sol, it)
+            bs = c.sums[-1]
+            tj = z3.Int(c.name("tj"))
+            t = bs.t(tj)
+            if z3.is_app(t) and t.decl().eq(Z) and z3.is_app(t.arg(0)) and t.arg(0).decl().eq(DU):
+                jt, i = t.arg(0).arg(0), t.arg(2)
+                if c._valid(z3.And(bs.n == DL(jt), t == Z(DU(jt, tj), DV(jt, tj), i))):
+                    S = st["DS"]
+                    link_sum(c, "sum-built-by-the-code=distinct-constraint-edges-used-by-the-layer", lambda q_: S(jt, i, q_), lambda q_: z3.Implies(q_ >= 0, S(jt, i, q_ + 1) == S(jt, i, q_) + Z(DU(jt, q_), DV(jt, q_), i)), DL(jt), prop=P)
+                    return r
+            if z3.is_app(t) and t.decl().eq(R):
+                jt = t.arg(1)
+                if c._valid(z3.And(bs.n == k, t == R(tj, jt))):
+                    S = st["RS"]
+                    link_sum(c, "sum-built-by-the-code=layers-responsible-for-the-constraint", lambda q_: S(jt, q_), lambda q_: z3.Implies(q_ >= 0, S(jt, q_ + 1) == S(jt, q_) + R(q_, jt)), k, prop=P)
+                    return r
+            raise Unsupported("sum over something else than the used-indicators of a constraint / the responsibility indicators: %s" % t)
+        sol.quicksum = linked_sum
+
+        def cons_at(jx):
+            s_ = CSeq(c.fresh_const("raw_len", INT), lambda t: (Sym(z3.Int("raw_u")), Sym(z3.Int("raw_v"))), STuple(SInt, SInt), "constraint")
+            s_.j = lift(jx)
+            return s_
+        me.solver, me.G, me.k = sol, GG(), Sym(k)
+        me.subset_constraints = SymSeq(m, cons_at, None, "subset_constraints")
+        me.subset_constraints_coverage = Sym(cov)
+        me.edge_indexes = edge_idx
+        me.edge_vars = VarMap("edge_vars", X, edge_pred, 3)
+        me.edge_upper_bounds = UBMap()
+        H0 = lift(sol.store.holds)
+        f(me)
+        H = lift(sol.store.holds)
+        if not c.decide(m > 0, "constraints-present"):
+            c.prove("post:no-constraints=>no-row-and-no-column-is-added", z3.BoolVal(H.eq(H0) and not sol.created), prop=P)
+            return
+        b01 = lambda t: z3.And(0 <= t, t <= 1, z3.IsInt(t))
+        full = z3.And(H0, z3.ForAll([i_, j_], z3.Implies(sub_pred(i_, j_), b01(R(i_, j_)))), z3.ForAll([a_, b_, i_], z3.Implies(edge_pred(a_, b_, i_), b01(Z(a_, b_, i_)))),
+                      z3.ForAll([a_, b_, i_], z3.Implies(edge_pred(a_, b_, i_), used_row(a_, b_, i_))),
+                      z3.ForAll([i_, j_], z3.Implies(sub_pred(i_, j_), cov_row(i_, j_))), z3.ForAll([j_], z3.Implies(rng(j_, m), resp_row(j_))))
+        c.prove("post:columns:one-0/1-responsibility-indicator-per-(layer,constraint)-and-one-0/1-used-indicator-per-(edge,layer)",
+                z3.BoolVal(set(sol.created) == {"r", "used_edge"} and all(r["var_type"] == "integer" for r in sol.created.values())), prop=P)
+        c.prove("post:SOUND-every-constraint-has-a-responsible-layer-that-USES-(not:-traverses-often)-at-least-|distinct edges|*coverage-of-its-edges", z3.Implies(H, full), prop=P)
+        c.prove("post:COMPLETE-nothing-else-is-excluded", z3.Implies(full, H), prop=P)
+        # what the used-indicator means, given the multiplicity bounds of the edge variables
+        c.prove("post:the-used-indicator-is-min(1,-multiplicity)",
+                z3.Implies(z3.And(H, z3.ForAll([a_, b_, i_], z3.Implies(edge_pred(a_, b_, i_), z3.And(X(a_, b_, i_) >= 0, z3.IsInt(X(a_, b_, i_)))))),
+                           z3.ForAll([a_, b_, i_], z3.Implies(edge_pred(a_, b_, i_), Z(a_, b_, i_) == z3.If(X(a_, b_, i_) >= 1, z3.RealVal(1), z3.RealVal(0))))), prop=P)
+
+    def concrete(inst):
+        def hc(c, f):
+            E, k, cons, covv, ub = [tuple(e) for e in inst["edges"]], inst["k"], [[tuple(e) for e in cc] for cc in inst.get("cons", [])], inst.get("cov", 1.0), inst.get("ub", {})
+
+            class EdgeList(list):
+                def __call__(self, data=False): return list(self)
+
+            class GG:
+                edges = EdgeList(E)
+
+            class Me(Tracked):
+                pass
+            me = Me()
+            sol = Solver({"r": (R, 2), "used_edge": (Z, 3)})
+            members = [(a, b, i) for i in range(k) for (a, b) in E]
+            me.solver, me.G, me.k = sol, GG(), k
+            me.subset_constraints, me.subset_constraints_coverage = cons, covv
+            me.edge_indexes = concrete_idx("edge_indexes", members, 3)
+            me.edge_vars = VarMap("edge_vars", X, me.edge_indexes.pred, 3)
+            me.edge_upper_bounds = {e: ub.get(e, 1) for e in E}
+            H0 = lift(sol.store.holds)
+            f(me)
+            H = lift(sol.store.holds)
+            if not cons:
+                c.prove("instance:no-constraints=>nothing-added", z3.BoolVal(H.eq(H0)), prop=P)
+                return
+            b01 = lambda t: z3.And(0 <= t, t <= 1, z3.IsInt(t))
+            S = lambda ts: sum(ts, z3.RealVal(0))
+            rows = [b01(R(i, j)) for i in range(k) for j in range(len(cons))] + [b01(Z(*mm)) for mm in members]
+            rows += [z3.And(Z(a, b, i) <= X(a, b, i), X(a, b, i) <= z3.RealVal(ub.get((a, b), 1)) * Z(a, b, i)) for (a, b, i) in members]
+            for i in range(k):
+                for j, cc in enumerate(cons):
+                    d = sorted(set(cc))
+                    rows.append(S([Z(a, b, i) for (a, b) in d]) >= z3.RealVal(len(d)) * z3.RealVal(repr(covv)) * R(i, j))
+            rows += [S([R(i, j) for i in range(k)]) >= 1 for j in range(len(cons))]
+            full = z3.And(H0, *rows)
+            c.prove("instance:SOUND-every-constraint-has-a-responsible-layer-that-uses-the-requested-share-of-its-distinct-edges", z3.Implies(H, full), prop=P)
+            c.prove("instance:COMPLETE-nothing-else-is-excluded", z3.Implies(full, H), prop=P)
+        return hc
+
+    def instances():
+        E = [(0, 1), (1, 2), (2, 1), (2, 3)]
+        return [(lab, concrete(i)) for lab, i in (
+            ("cycle,k=1,constraint-with-a-cycle-edge", dict(edges=E, k=1, cons=[[(1, 2), (2, 3)]], ub={(1, 2): 3, (2, 1): 3})),
+            ("cycle,k=2,two-constraints,duplicate-edge-in-one,coverage-0.5", dict(edges=E, k=2, cons=[[(1, 2), (1, 2), (2, 1)], [(0, 1)]], cov=0.5, ub={(1, 2): 2, (2, 1): 2})),
+            ("cycle,k=2,no-constraints", dict(edges=E, k=2)))]
+
+    fresh = lambda old: Sym(z3.Bool(core.ctx().name("H")))
+    mod = [(("self", "solver", "store", "holds"), fresh)]
+    loops = {0: dict(inv=inv0, prop=P, modifies=mod, on_entry=snap("H_l0"), keep=("i", "u", "v")),
+             1: dict(inv=inv1, prop=P, modifies=mod, on_entry=snap("H_l1", ("i",)), keep=("u", "v")),
+             2: dict(inv=inv2, prop=P, modifies=mod, on_entry=snap("H_l2"), keep=("i", "j", "constraint_as_set", "constraint_length", "coverage_fraction")),
+             3: dict(inv=inv3, prop=P, modifies=mod, on_entry=snap("H_l3", ("i",)), keep=("j", "constraint_as_set", "constraint_length", "coverage_fraction")),
+             4: dict(inv=inv4, prop=P, modifies=mod, on_entry=snap("H_l4"), keep=("j",))}
+    def set_glob(x=None):
+        if isinstance(x, (list, tuple)):
+            return sorted(set(x))            # concrete instance (sorted: a deterministic enumeration)
+        return st["set_"](x)
+    u = Unit("flowpaths/abstractwalkmodeldigraph.py", "AbstractWalkModelDiGraph._encode_subset_constraints", h, globs=dict(utils=UtilsStub, set=set_glob), loops=loops, props=["C10", "C04"],
+             instances=instances, callee_contracts=[A1C],
+             assumptions=[A3, "requires: constraint edges are edges of the graph (validated by the constructor, C19)",
+                          "set(constraint) is modelled as an enumeration without repetition of the constraint's distinct edges (a finite set has one); the raw list is not read otherwise"])
+    return u
+
+
 def all_units():
-    return dag_units() + cyc_units() + [u_min_error_flow(int), u_min_error_flow(float)] + [u_encode_paths(False), u_encode_paths(True)]
+    return dag_units() + cyc_units() + [u_subset_constraints()] + [u_min_error_flow(int), u_min_error_flow(float)] + [u_encode_paths(False), u_encode_paths(True)] + \
+        [u_cover("flowpaths/kpathcover.py", "kPathCover._encode_path_cover", "subpath_constraints"), u_cover("flowpaths/kpathcovercycles.py", "kPathCoverCycles._encode_walk_cover", "subset_constraints")]
